@@ -7,6 +7,7 @@ use std::ops::Bound;
 use super::*;
 use crate::catalog::ColumnRefId;
 use crate::storage::KeyRange;
+use crate::types::DataValue;
 
 /// The data type of range analysis.
 ///
@@ -103,11 +104,24 @@ pub fn filter_scan_rule() -> Vec<Rewrite> { vec![
 fn is_primary_key_range(expr: &str) -> impl Fn(&mut EGraph, Id, &Subst) -> bool {
     let var = var(expr);
     move |egraph, _, subst| {
-        let Some((column, _)) = &egraph[subst[var]].data.range else {
+        let Some((column, range)) = &egraph[subst[var]].data.range else {
             return false;
         };
+        // The storage can only seek to and mask a key range over an INT key with INT bounds (see
+        // `DiskRowset::start_rowid`); any other range condition has to stay in the filter.
+        let is_int = |b: &Bound<DataValue>| {
+            matches!(
+                b,
+                Bound::Unbounded
+                    | Bound::Included(DataValue::Int32(_))
+                    | Bound::Excluded(DataValue::Int32(_))
+            )
+        };
+        if !is_int(&range.start) || !is_int(&range.end) {
+            return false;
+        }
         if let Some(col) = egraph.analysis.catalog.get_column(column) {
-            col.is_primary()
+            col.is_primary() && col.data_type() == crate::types::DataType::Int32
         } else {
             // handle the case that catalog is not initialized, like in test cases
             false
